@@ -96,6 +96,13 @@ CLAIMED = {
         "Linearity in the function values makes the unit-vector basis decide all value arrays; tolerance 1e-11 of sum|w f basis|; orders up to 6 (thorough 8).",
         "DESIGN.md 3/C14",
     ),
+    "C13": (
+        "exploration",
+        "seven exhaustive sub-spaces: every flat index / coordinate tuple of all shapes {2..5}^2 u {2..4}^3; point layout for axes menus x shapes and all ordered pairs/triples of four 1D grids; 5 weight schemes x 2 dims x 6 shapes x 2 axes; 8 molecules x spacing x extension x rotate; query-point lattices for closest_point vs brute-force argmin; cube-file round trips in both unit conventions; cubic interpolation of the 64 monomials x^a y^b z^c (a,b,c<=3, a basis by linearity) x derivative orders on two grids, log variant, trilinear functions",
+        "Each sub-space is finite and enumerated completely (3.4e4 comparisons quick; thorough adds all 64 derivative orders), so stride arithmetic, meshgrid ordering, kron order and every weight scheme in both dimensions are decided for non-cubic shapes and skewed/negative axes.",
+        "Cubic-spline reproduction of cubics needs >= 4 interior nodes per axis; cube precision = printed precision; closest_point only for diagonal axes (documented) and queries within half a step of the box.",
+        "DESIGN.md 3/C13",
+    ),
 }
 
 NOT_YET = "check not built yet in this session (work in progress; see DESIGN.md section 8 for the order of work)"
